@@ -280,6 +280,9 @@ class StmtMixin:
         if isinstance(target, (ast.Name, ast.Tuple, ast.List)):
             if isinstance(target, ast.Name) and val.kind == "pyobj" and val.py[0] == "iterview":
                 val = self.materialise(val, st)
+            if isinstance(target, ast.Name) and target.id in self.contract.local_specs and val.kind == "seq":
+                # element type of a local list that starts empty, declared by the contract (the source has no annotation)
+                val = Sym("seq", val.t, self.contract.local_specs[target.id])
             self.bind_target(target, val, st)
             return
         if isinstance(target, ast.Subscript):
